@@ -84,6 +84,8 @@
 #include "QXmppMovedItem_p.h"
 #include "QXmppSceEnvelope_p.h"
 #include "QXmppTransferManager.h"
+// src/server
+#include "QXmppDialback.h"
 // src/base/compat (deprecated API that is still compiled and exported)
 #undef QXMPPPUBSUBIQ_H   // same include guard as QXmppPubSubIq_p.h, different class
 #include "compat/QXmppPubSubIq.h"
@@ -375,6 +377,7 @@ inline std::vector<Codec> buildTable()
     EL(QXmppTrustMessageElement, isTrustMessageElement);
     EL(QXmppTrustMessageKeyOwner, isTrustMessageKeyOwner);
     EL(QXmppStreamFeatures, isStreamFeatures);
+    EL(QXmppDialback, isDialback);
     EL(QXmppPubSubBaseItem, isItem);
     EL(QXmppGeolocItem, isItem);
     EL(QXmppTuneItem, isItem);
